@@ -671,6 +671,7 @@ class Gen(object):
         self.max_depth = max_depth
         self.lines = []
         self.budget = 60
+        self.comp_depth = 0     # comprehension nesting of the expression being generated
 
     def name(self):
         return self.rng.choice(POOL)
@@ -697,18 +698,23 @@ class Gen(object):
                     params.append('%s=%s' % (p, self.name()))
                 else:
                     params.append(p)
+            cd, self.comp_depth = self.comp_depth, 0
             body = self.expr(depth + 1, bound | set(ps), False)
+            self.comp_depth = cd
             return '(lambda %s: %s)' % (', '.join(params), body)
         if r < 0.9 and allow_scope:
             # comprehension (merged into the enclosing scope by supp and by CPython 3.12)
             t = self.name()
             it = self.name()
+            self.comp_depth += 1
             elt = self.expr(depth, bound, in_class, allow_scope=(depth < self.max_depth and not in_class))
+            self.comp_depth -= 1
             cond = (' if %s' % self.name()) if self.rng.random() < 0.3 else ''
             form = self.rng.choice(['[%s for %s in %s%s]', '{%s for %s in %s%s}', 'list(%s for %s in %s%s)',
                                     '{%s: 0 for %s in %s%s}'])
             return form % (elt, t, it, cond)
-        if r < 0.95 and not in_class:
+        if r < 0.95 and not in_class and self.comp_depth <= 1:
+            # (not under two comprehension levels: open finding K5-C05, the binding is lost by nast.py)
             return '(%s := %s)' % (self.name(), self.name())
         return '%s.attr' % self.name()
 
@@ -1079,6 +1085,32 @@ def check_known(ctx):
     if other:
         ctx.violation('known finding input: other reads fail too: %r' % (other[:3],),
                       {'kind': 'direct', 'source': obj['source'], 'failures': other[:10]})
+    check_known_k5(ctx)
+
+
+def check_known_k5(ctx):
+    """Open finding K5-C05 (existence part): the binding of a walrus under two comprehension levels is
+    lost. Re-run exactly the recorded input: KNOWN-FINDING only if supp still reports no binding for the
+    recorded read while CPython resolves it to a scope that binds the name."""
+    p = os.path.join(VERIF, 'corpus', 'C05', 'known_K5-C05.json')
+    if not os.path.exists(p):
+        return
+    obj = json.load(open(p))
+    try:
+        an = Analysed(obj['source'], 'known.py')
+        hit = None
+        for sc, blk, node, exp, got in an.reads({}):
+            if (node.id, (node.lineno, node.col_offset)) == (obj['read'][0], tuple(obj['read'][1])):
+                hit = (sc, got, exp)
+    except Exception as e:
+        ctx.violation('known finding input K5-C05: %s: %s' % (type(e).__name__, e),
+                      {'kind': 'direct', 'source': obj['source']}, found_input=True)
+        return
+    still = hit is not None and not hit[1] and obj['read'][0] in hit[0].bound
+    ctx.coverage['known_finding_K5_still_fails'] = bool(still)
+    if still:
+        ctx.known_finding('K5-C05', 'the binding of a walrus under two comprehension levels reaches no flow: read %r at %r '
+                          'has no binding although its scope binds the name' % (obj['read'][0], tuple(obj['read'][1])))
 
 
 def run(ctx):
